@@ -360,6 +360,61 @@ __probe("specials.state", function () {
     [].constructor === spSaved.A, (function () {}).constructor === spSaved.F, ({}).constructor === spSaved.O, spTry].join();
 });`},
 
+	// kinds: one object of every object-creating construct, made by a factory BEFORE the
+	// copy. The mutations run the factory again AFTER the copy and relate the new objects
+	// to the old ones (kiRelate: which prototypes, constructor links, own accessor functions
+	// and object-valued own properties are the very same object). On a replayed runtime both
+	// generations come from one runtime; on a copy the old generation was cloned and the new
+	// one is native to the copy, so any lazily initialised per-runtime singleton or intrinsic
+	// that Copy() forgets shows up as a differing relation.
+	{Name: "kinds", Solo: true, Src: `
+function kiDecl(a) { return a; }
+function kiMake() {
+  var target = function (a, b) { return [this, a, b]; };
+  var thrown; try { null.x; } catch (e) { thrown = e; }
+  return {
+    fexpr: function (x) { return x; }, decl: kiDecl, newfn: new Function("a", "return a"),
+    bound: target.bind(null), boundargs: target.bind({}, 1, 2), boundnative: Math.max.bind(null, 1), boundbound: target.bind(null).bind(null, 1),
+    relit: /a+/g, renew: new RegExp("b", "i"), err: new Error("e"), terr: new TypeError("t"), thrown: thrown,
+    arr: [1, 2], obj: { k: 1 }, args: (function () { return arguments; })(1), created: Object.create(kiDecl.prototype), nullp: Object.create(null),
+    getset: { get p() { return 1; }, set p(v) {} }, date: new Date(0), str: new String("s"), num: new Number(1), bool: new Boolean(true),
+    split: "a,b".split(","), parsed: JSON.parse('{"j":[1]}'), desc: Object.getOwnPropertyDescriptor({ d: 1 }, "d"), keys: Object.keys({ a: 1 }),
+    match: /(x)/.exec("x"), instance: new kiDecl(1)
+  };
+}
+function kiSame(a, b) {
+  var out = [], gopd = Object.getOwnPropertyDescriptor, names = Object.getOwnPropertyNames(a), i, n, da, db;
+  function isObj(v) { return v !== null && (typeof v === "object" || typeof v === "function"); }
+  out[out.length] = "proto" + (Object.getPrototypeOf(a) === Object.getPrototypeOf(b) ? "=" : "!");
+  if (Object.getPrototypeOf(a) !== null) { out[out.length] = "ctor" + (a.constructor === b.constructor ? "=" : "!"); }
+  for (i = 0; i < names.length; i++) {
+    n = names[i]; da = gopd(a, n); db = gopd(b, n);
+    if (!da || !db) { out[out.length] = n + "?"; continue; }
+    if ("value" in da) { if (isObj(da.value)) { out[out.length] = n + (da.value === db.value ? "=" : "!"); } }
+    else {
+      if (da.get !== undefined) { out[out.length] = n + ".get" + (da.get === db.get ? "=" : "!"); }
+      if (da.set !== undefined) { out[out.length] = n + ".set" + (da.set === db.set ? "=" : "!"); }
+    }
+  }
+  return out.join(" ");
+}
+function kiRelate(x, y) {
+  var out = [], names = Object.getOwnPropertyNames(x);
+  for (var i = 0; i < names.length; i++) { out[out.length] = names[i] + ": " + kiSame(x[names[i]], y[names[i]]); }
+  return out.join("; ");
+}
+var kiPre = kiMake(), kiPre2 = kiMake();
+__probe("kinds.pre", function () { return kiRelate(kiPre, kiPre2); });`},
+
+	// reentrant: bound functions with several bound arguments, called re-entrantly from a
+	// conversion of one of their own arguments (the bound-argument list of a copy is
+	// reallocated by the cloner, so capacity-dependent aliasing differs from the replay).
+	{Name: "reentrant", Solo: true, Src: `
+var reG = Math.max.bind(null, 1, 2, 3, 4);
+var reF = function () { return Array.prototype.slice.call(arguments).join(); }.bind(null, "a", "b");
+var reC = String.prototype.concat.bind("r", "p", "q");
+__probe("reentrant.plain", function () { return [reG(0), reF("c"), reC("z")].join("|"); });`},
+
 	// Bridged Go values of the remaining kinds. The Go value itself (backing array, map) is
 	// necessarily common to the original and its copies; everything otto owns about it is
 	// not: the wrapper object's own properties and runtime, the slice length otto keeps for
@@ -470,6 +525,9 @@ var mutations = []mutation{
 	{Name: "evalacc.restore", Needs: "evalacc", Src: `Object.defineProperty(this, "eval", { value: eaE, writable: true, configurable: true }); (function () { var y = 2; return eval("y"); })()`},
 	{Name: "specials.restore", Needs: "specials", Src: `Function = spSaved.F; Array = spSaved.A; Object = spSaved.O; console = spSaved.c; [new Function("return 7")(), new Array(3).length, Object.keys({ a: 1 }).join(), typeof console.log].join()`},
 	{Name: "specials.use", Needs: "specials", Src: `Array.prototype.viaNew = 1; [Function(), Array(1, 2), [] instanceof Array, [] instanceof spSaved.A, new spSaved.F("a", "return a + 1")(1), typeof [].viaNew, Object.keys(Object).length > 5].join()`},
+	{Name: "kinds.relate", Needs: "kinds", Src: `var kiPost = kiMake(), kiPost2 = kiMake(); [kiRelate(kiPre, kiPost), kiRelate(kiPost, kiPost2)].join(" || ")`},
+	{Name: "kinds.tag", Needs: "kinds", Src: `var kiT = kiMake(), kiOut = [], kiN = Object.getOwnPropertyNames(kiT); for (var kiI = 0; kiI < kiN.length; kiI++) { (function (o, p, n) { var po = Object.getPrototypeOf(o); if (po) { po["tag_" + n] = n; } kiOut[kiOut.length] = n + ":" + (po ? p["tag_" + n] : "-"); var d = Object.getOwnPropertyDescriptor(o, "caller"); if (d && d.get) { d.get.tagged = n; var e = Object.getOwnPropertyDescriptor(p, "caller"); kiOut[kiOut.length] = n + ".caller:" + (e && e.get ? e.get.tagged : "-"); } })(kiT[kiN[kiI]], kiPre[kiN[kiI]], kiN[kiI]); } kiOut.join()`},
+	{Name: "reentrant.call", Needs: "reentrant", Src: `[reG({ valueOf: function () { reG(0, 99); return 0; } }, 5), reF({ toString: function () { reF("x", "y"); return "t"; } }, "u"), reC({ toString: function () { reC("m", "n"); return "k"; } }, "w")].join("|")`},
 	{Name: "goslice.length", Needs: "goslice", Src: `gsl.length = 1; gsl.length`},
 	{Name: "goslice.rebind", Needs: "goslice", Src: `gslHolder.ref = null; var gslN = gsl.length; gsl = undefined; gslN`},
 	{Name: "gomap.rebind", Needs: "gomap", Src: `gmHolder.ref = null; var gmN = gm.a; gm = undefined; gmN`},
